@@ -48,6 +48,8 @@ type Solver struct {
 	Trace   io.Writer
 	// PreferBVInt routes every query to cvc5 --solve-bv-as-int first.
 	PreferBVInt bool
+	// PreferCVC5 routes every query to one-shot cvc5 first (floating-point kernels).
+	PreferCVC5 bool
 }
 
 func NewSolver(stats *SolverStats, timeout time.Duration) (*Solver, error) {
@@ -216,7 +218,7 @@ func (s *Solver) Check(extra *Term, vars []*Term, wantModel bool) (SatResult, ma
 	var res SatResult = Unknown
 	var model map[string]uint64
 	backend := 0
-	if !s.PreferBVInt {
+	if !s.PreferBVInt && !s.PreferCVC5 {
 		s.send("(push 1)")
 		if extra != nil {
 			s.send("(assert " + refName(extra) + ")")
@@ -397,17 +399,18 @@ func (s *Solver) fallback(extra *Term, vars []*Term, wantModel bool) (SatResult,
 		tsec = 1
 	}
 	hasFP := strings.Contains(body, "FloatingPoint")
-	bes := []be{}
-	if !hasFP {
-		bes = append(bes, be{3, []string{"cvc5", "--solve-bv-as-int=sum", "--produce-models", fmt.Sprintf("--tlimit=%d", tsec*1000)}, "(set-logic ALL)\n"})
-	}
-	if !s.PreferBVInt || hasFP {
-		bes = append(bes,
-			be{1, []string{"z3-new", "-smt2", fmt.Sprintf("-T:%d", tsec)}, ""},
-			be{2, []string{"cvc5", "--produce-models", fmt.Sprintf("--tlimit=%d", tsec*1000)}, "(set-logic ALL)\n"},
-		)
-	} else {
-		bes = append(bes, be{0, []string{"z3", "-smt2", fmt.Sprintf("-T:%d", tsec)}, ""})
+	beInt := be{3, []string{"cvc5", "--solve-bv-as-int=sum", "--produce-models", fmt.Sprintf("--tlimit=%d", tsec*1000)}, "(set-logic ALL)\n"}
+	beZ3 := be{0, []string{"z3", "-smt2", fmt.Sprintf("-T:%d", tsec)}, ""}
+	beZ3n := be{1, []string{"z3-new", "-smt2", fmt.Sprintf("-T:%d", tsec)}, ""}
+	beCVC := be{2, []string{"cvc5", "--produce-models", fmt.Sprintf("--tlimit=%d", tsec*1000)}, "(set-logic ALL)\n"}
+	var bes []be
+	switch {
+	case s.PreferCVC5 || hasFP:
+		bes = []be{beCVC, beZ3n, beZ3}
+	case s.PreferBVInt:
+		bes = []be{beInt, beZ3, beZ3n, beCVC}
+	default:
+		bes = []be{beZ3n, beCVC, beInt}
 	}
 	if d := os.Getenv("VERIF_DUMP_UNKNOWN"); d != "" {
 		os.WriteFile(fmt.Sprintf("%s/unknown-%d.smt2", d, time.Now().UnixNano()), []byte(body), 0o644)
@@ -416,17 +419,17 @@ func (s *Solver) fallback(extra *Term, vars []*Term, wantModel bool) (SatResult,
 		os.WriteFile(f.Name(), []byte(b.prefix+body), 0o644)
 		argv := append(append([]string{}, b.argv...), f.Name())
 		out, _ := exec.Command(argv[0], argv[1:]...).Output()
-		txt := string(out)
-		if strings.Contains(txt, "(error") {
-			continue
-		}
-		lines := strings.SplitN(strings.TrimSpace(txt), "\n", 2)
+		txt := strings.TrimSpace(string(out))
+		lines := strings.SplitN(txt, "\n", 2)
 		switch strings.TrimSpace(lines[0]) {
 		case "unsat":
 			return Unsat, nil, b.idx
 		case "sat":
 			var m map[string]uint64
-			if wantModel && len(lines) > 1 {
+			if wantModel && len(vars) > 0 {
+				if len(lines) < 2 || strings.Contains(lines[1], "(error") {
+					continue
+				}
 				m = parseModel(lines[1])
 			}
 			return Sat, m, b.idx
